@@ -124,6 +124,8 @@ fn record(out: &str, a: &Args) {
     let all16 = a.num("--all16", 0) == 1;
     let mut evs: Vec<Value> = Vec::new();
     let mut vals: Vec<u64> = Vec::new();
+    // every 16-bit value: LEB128 writers and the 2-byte fixed writers only
+    let n16 = if all16 { 0x10000usize } else { 0 };
     if all16 {
         vals.extend(0..=0xffffu64);
     }
@@ -136,7 +138,8 @@ fn record(out: &str, a: &Args) {
             vals.push((!0u64 << sh).wrapping_add(d));
         }
     }
-    for v in vals {
+    for (vi, v) in vals.into_iter().enumerate() {
+        let small = vi < n16;
         // LEB128 writers through the Writer trait, the Leb128 struct, the size functions
         let mut w = EndianVec::new(RunTimeEndian::Little);
         let r = w.write_uleb128(v);
@@ -159,7 +162,8 @@ fn record(out: &str, a: &Args) {
             "size":r.unwrap_or(usize::MAX),"sbytes":bytes_json(&buf)}));
         // fixed-size data in both byte orders
         for le in [true, false] {
-            for size in [1u8, 2, 4, 8, 0, 3, 16] {
+            let sizes: &[u8] = if small { &[2] } else { &[1, 2, 4, 8, 0, 3, 16] };
+            for &size in sizes {
                 let mut w = EndianVec::new(endian(le));
                 let r = w.write_udata(v, size);
                 evs.push(json!({"ev":"WriteUData","v":bv(v,8),"size":size,"le":le,"ok":r.is_ok(),"bytes":bytes_json(w.slice())}));
@@ -173,6 +177,9 @@ fn record(out: &str, a: &Args) {
                 evs.push(json!({"ev":"WriteUDataAt","v":bv(v,8),"size":size,"le":le,"ok":r.is_ok(),"off":2,"bytes":bytes_json(w.slice())}));
             }
             // initial length: placeholder then patched; then read back by the real reader
+            if small {
+                continue;
+            }
             for f in [Format::Dwarf32, Format::Dwarf64] {
                 let mut w = EndianVec::new(endian(le));
                 let off = w.write_initial_length(f).unwrap();
